@@ -24,9 +24,8 @@ pub(crate) trait Index: Copy + Clone + FixedSize + PartialEq + Display {
         Self::zero().next()
     }
 
-    fn increment(&mut self) {
-        *self = self.next()
-    }
+    /// `None` if the next value cannot be represented
+    fn checked_next(self) -> Option<Self>;
 
     const COUNT_AND_PREFIX_QUALIFIER: QualifierCode;
     const RANGE_QUALIFIER: QualifierCode;
@@ -65,6 +64,9 @@ impl Index for u8 {
     fn next(self) -> Self {
         self + 1
     }
+    fn checked_next(self) -> Option<Self> {
+        self.checked_add(1)
+    }
     fn widen_to_u16(self) -> u16 {
         self as u16
     }
@@ -80,6 +82,9 @@ impl Index for u16 {
     }
     fn next(self) -> Self {
         self + 1
+    }
+    fn checked_next(self) -> Option<Self> {
+        self.checked_add(1)
     }
     fn widen_to_u16(self) -> u16 {
         self
